@@ -236,7 +236,9 @@ def gen_case(rng, maxL, maxN, tier):
         sigma = round(rng.uniform(0.5, 1.5), 3)
         if rng.random() < 0.2:
             c['invalid'] = True
-            if rng.random() < 0.5: l = sigma / 2 * rng.uniform(0.3, 1.0); lp = 5.0
+            c1 = rng.random()
+            if c1 < 0.2: l = sigma * rng.uniform(0.6, 1.5); lp = rng.choice([0.0, 0, -1.0])          # lp exactly zero (falsy) or negative
+            elif c1 < 0.6: l = sigma / 2 * rng.uniform(0.3, 1.0); lp = 5.0
             else:
                 l = sigma * rng.uniform(0.6, 1.5); lp = (4 * l ** 3) / (4 * l ** 2 - sigma ** 2) * rng.choice([rng.uniform(0.3, 0.999), 1 - 8e-4, 1 - 1e-4, 1 - 1e-6, 1 - 1e-9])
         else:
@@ -254,6 +256,10 @@ def gen_case(rng, maxL, maxN, tier):
 
 def generate(ctx):
     rng = ctx.rng; maxL = ctx.n(48, 300); maxN = ctx.n(200, 10000)
+    # directed: persistence lengths that are invalid for every chain (zero as float / int, negative) must be rejected
+    for lp in (0.0, 0, -0.5):
+        c = {'cls': 'DiscreteKoyama', 'k': [0.1, 0.5, 1.0, 2.0], 'kgrid': 'log', 'N': 5, 'p': {'sigma': 1.0, 'l': 1.0, 'lp': lp}, 'invalid': True}
+        ctx.case('eval', c, True, tags=['cls:DiscreteKoyama', 'invalid-params', 'lp:%r' % lp]); suite_eval(ctx, c)
     for _ in range(ctx.n(500, 5000)):
         c = gen_case(rng, maxL, maxN, ctx.tier)
         N = c.get('N', 1)
